@@ -116,17 +116,10 @@ def _stable_requested(kwargs):
     return kind in ("stable", "mergesort") or kwargs.get("stable") is True
 
 
-def sorting_permutation(eng, a, stable):
-    """fresh `order` (SArr int, length n) with a ghost inverse: a permutation of the positions that lists the keys in non-decreasing order"""
-    if a.kind not in ("int", "real", "bool"):
-        raise Unsupported("argsort element kind")
-    used(eng, "argsort-of-1d-array: a permutation of the positions (ghost inverse) listing the keys in non-decreasing order"
-         + ("; stable: equal keys keep their position order" if stable else "; order among equal keys left open"))
+def _permutation_facts(eng, a, arr, rank, stable):
     n = a.nz()
-    out = SArr.fresh("int", a.n, name="order", dtype=np.dtype("int64"))
-    rank = z3.Function(fresh_name("rank"), I, I)
     k, k2, p = z3.Int(fresh_name("sk")), z3.Int(fresh_name("sk2")), z3.Int(fresh_name("sp"))
-    o = lambda t: z3.Select(out.arr, t)
+    o = lambda t: z3.Select(arr, t)
     key = lambda t: to_z3(a.get(o(t)), "int" if a.kind == "bool" else a.kind)
     eng.assume(z3.ForAll([k], z3.Implies(_rng(k, n), z3.And(_rng(o(k), n), rank(o(k)) == k)), patterns=[o(k)]))
     # second trigger: whenever a key a[p] is mentioned, its place rank(p) in the sorted order is available (a needle that is known to
@@ -137,6 +130,41 @@ def sorting_permutation(eng, a, stable):
     else:
         ordered = key(k) <= key(k2)
     eng.assume(z3.ForAll([k, k2], z3.Implies(z3.And(0 <= k, k < k2, k2 < n), ordered), patterns=[z3.MultiPattern(o(k), o(k2))]))
+
+
+def stable_order(eng, a):
+    """THE stable sorting permutation of the array value `a` (z3 array term of positions, ghost inverse): a function of the contents, so
+    it is introduced once per (contents, length) on a path and shared by every later sort of the same value"""
+    ck = ("stable-order", a.arr.get_id(), z3.simplify(a.nz()).get_id(), a.kind)
+    hit = eng.ghost.get(ck)
+    if hit is None:
+        arr = z3.Const(fresh_name("order"), z3.ArraySort(I, I))
+        rank = z3.Function(fresh_name("rank"), I, I)
+        _permutation_facts(eng, a, arr, rank, True)
+        hit = eng.ghost[ck] = (arr, rank, a.arr)
+    return hit[0], hit[1]
+
+
+def sorting_permutation(eng, a, stable):
+    """`order` (SArr int, length n) with a ghost inverse: a permutation of the positions that lists the keys in non-decreasing order.
+    stable: the canonical stable permutation of this array value.  Not stable: some sorting permutation; the key SEQUENCE it produces is
+    the sorted one whatever the algorithm (the sorted sequence of a multiset is unique), which is stated against the stable permutation --
+    so for pairwise distinct keys every sort of the same value provably yields the same permutation."""
+    if a.kind not in ("int", "real", "bool"):
+        raise Unsupported("argsort element kind")
+    used(eng, "argsort-of-1d-array: a permutation of the positions (ghost inverse) listing the keys in non-decreasing order; the sorted key "
+         "sequence is unique; stable: equal keys keep their position order, otherwise the order among equal keys is left open")
+    st, st_rank = stable_order(eng, a)
+    if stable:
+        out = SArr(st, a.n, "int", name="order", dtype=np.dtype("int64"))
+        out.rank = st_rank
+        return out
+    out = SArr.fresh("int", a.n, name="order", dtype=np.dtype("int64"))
+    rank = z3.Function(fresh_name("rank"), I, I)
+    _permutation_facts(eng, a, out.arr, rank, False)
+    k = z3.Int(fresh_name("sk"))
+    eng.assume(z3.ForAll([k], z3.Implies(_rng(k, a.nz()), z3.Select(a.arr, z3.Select(out.arr, k)) == z3.Select(a.arr, z3.Select(st, k))),
+                         patterns=[z3.Select(out.arr, k), z3.Select(st, k)]))
     out.rank = rank
     return out
 
@@ -160,11 +188,12 @@ def _np_sort(eng, args, kwargs):
         return _chain(np.sort, "numpy.sort")(eng, args, kwargs)
     if len(args) > 1 or kwargs.get("axis", -1) not in (-1, 0) or kwargs.get("order") is not None:
         raise Unsupported("np.sort options")
-    order = sorting_permutation(eng, a, _stable_requested(kwargs))
+    _stable_requested(kwargs)
+    used(eng, "np.sort-of-1d-array: fresh array, the keys read through the stable sorting permutation (the sorted sequence does not depend on the algorithm)")
+    st, _ = stable_order(eng, a)
     out = SArr.fresh(a.kind, a.n, name="sorted", dtype=a.dtype)
     k = z3.Int(fresh_name("sk"))
-    eng.assume(z3.ForAll([k], z3.Implies(_rng(k, a.nz()), z3.Select(out.arr, k) == z3.Select(a.arr, z3.Select(order.arr, k))), patterns=[z3.Select(out.arr, k)]))
-    out.order = order
+    eng.assume(z3.ForAll([k], z3.Implies(_rng(k, a.nz()), z3.Select(out.arr, k) == z3.Select(a.arr, z3.Select(st, k))), patterns=[z3.Select(out.arr, k), z3.Select(st, k)]))
     return out
 
 
